@@ -111,6 +111,15 @@ def make_env(scenario):
     for key in ("start", "end", "transformer_end"):
         if kw.get(key):
             kw[key] = pd.Timestamp(kw[key])
+    tr = kw.get("transformer")
+    if isinstance(tr, str) and tr.startswith("prefit:"):
+        # the caller hands over a transformer instance it has fitted itself, on the rows up to prefit_end
+        from sklearn.preprocessing import StandardScaler, PowerTransformer
+        est = StandardScaler() if tr.endswith("z-score") else PowerTransformer()
+        with warnings.catch_warnings():
+            warnings.simplefilter("ignore")
+            est.fit(X.loc[:pd.Timestamp(kw.pop("prefit_end"))])
+        kw["transformer"] = est
     with warnings.catch_warnings():
         warnings.simplefilter("ignore")
         if scenario.get("shared_first"):
